@@ -4,7 +4,7 @@
 //!   new N | with N ST | raw N <2*len hex> | threads K
 //!   apply <expr> | measure MASK | measureall
 //!   tensorr N2 <2*len2 hex> | tensorl N2 <2*len2 hex> | mulassign N2 <2*len2 hex>
-//!   setnum K | sample COUNT | probs | abs | polar | dump
+//!   clonefrom K (Clone::clone_from into a K-qubit register) | setnum K | sample COUNT | probs | abs | polar | dump
 //! output: records separated by ` | `:
 //!   d N LEN <hex pairs> | m V NUM | h K cells.. n K <hex>.. | p K <hex>.. | b <hex> | o K <hex pairs> | x <panic class>
 //! Each action runs under catch_unwind; a panic ends the case with an `x` record.
@@ -105,6 +105,15 @@ pub fn run(toks: &[&str]) -> String {
                     None
                 }
                 "setnum" => { reg.set_num(parse_n(t.next().unwrap())); None }
+                "clonefrom" => {
+                    // Clone::clone_from into an existing register of K qubits (a caller that re-uses a snapshot buffer):
+                    // the history goes on with the copy
+                    let k = parse_n(t.next().unwrap());
+                    let mut dst = QReg::with_state(k, (1usize << k) - 1);
+                    dst.clone_from(&reg);
+                    reg = dst;
+                    None
+                }
                 "sample" => {
                     let count = parse_n(t.next().unwrap());
                     let _ = qvnt::verif::take_normals();
